@@ -41,30 +41,85 @@ type provRef struct {
 	// unchanged, i.e. while no helper was extracted, inlined or renamed and
 	// no call was added or removed
 	Sigs map[string][]string `json:"sigs"`
+	// Defined: every function the reference tree defines (as a callee id) – a call of a
+	// function that is not among them is a call of a new helper
+	Defined []string `json:"defined"`
 }
 
-var provGroups = []struct {
-	rule  string
-	props []string
-	pkgs  []string
-}{
-	{"R01.12", []string{"C01", "C02", "C03", "C04", "C05", "C06", "C07", "C08", "C10"}, []string{"pkg/blobstore/local"}},
-	{"R09.8", []string{"C09", "C15", "C16", "C10", "C01", "C08", "C04"}, []string{"pkg/blobstore/buffer"}},
-	{"R11.8", []string{"C11"}, []string{"pkg/blobstore/mirrored"}},
-	{"R12.10", []string{"C12"}, []string{"pkg/blobstore/sharding"}},
-	{"R13.8", []string{"C13"}, []string{"pkg/blobstore/completenesschecking"}},
-	{"R14.9", []string{"C14"}, []string{"pkg/blobstore/grpcservers", "pkg/blobstore/grpcclients"}},
-	{"R17.8", []string{"C17", "C11"}, []string{"pkg/blobstore/replication", "pkg/blobstore/readcaching", "pkg/blobstore/readfallback"}},
-	{"R18.9", []string{"C18", "C19", "C17"}, []string{"pkg/blobstore", "pkg/auth"}},
-	{"R20.10", []string{"C20", "C19", "C10"}, []string{"pkg/digest"}},
+// definedCallees: callee ids of all source functions of the program.
+func definedCallees(p *Program) map[string]bool {
+	out := map[string]bool{}
+	for _, f := range p.Funcs {
+		if f.Object() != nil {
+			if o, ok := f.Object().(*types.Func); ok {
+				out["S:"+o.FullName()] = true
+				continue
+			}
+		}
+		out["S:"+f.String()] = true
+	}
+	return out
 }
+
+// gateOpen: the function's calls differ from the reference only by calls of functions that
+// exist on both trees (a step was added, removed or replaced) – not by a helper that was
+// extracted (a callee the reference tree does not define) or inlined (a callee the current
+// tree no longer defines); in the latter cases the provenance of every site changes shape
+// and nothing is judged.
+func gateOpen(refSig, curSig []string, refDefined, curDefined map[string]bool) bool {
+	parse := func(sig []string) map[string]int {
+		m := map[string]int{}
+		for _, e := range sig {
+			if i := strings.LastIndex(e, "×"); i >= 0 {
+				n := 0
+				fmt.Sscanf(e[i+len("×"):], "%d", &n)
+				m[e[:i]] = n
+			}
+		}
+		return m
+	}
+	r, c := parse(refSig), parse(curSig)
+	isModuleStatic := func(id string) bool {
+		return strings.HasPrefix(id, "S:") && strings.Contains(id, modPath)
+	}
+	for id, n := range c {
+		if n > r[id] && isModuleStatic(id) && !refDefined[id] {
+			return false
+		}
+		if id == "dyn" && n != r[id] {
+			return false
+		}
+	}
+	for id, n := range r {
+		if n > c[id] && isModuleStatic(id) && !curDefined[id] {
+			return false
+		}
+		if id == "dyn" && n != c[id] {
+			return false
+		}
+	}
+	return true
+}
+
+var provGroups = groupsOf([][]string{
+	{"R01.12", "local"},
+	{"R09.8", "buffer"},
+	{"R11.8", "mirrored"},
+	{"R12.10", "sharding"},
+	{"R13.8", "completeness"},
+	{"R14.9", "grpc"},
+	{"R17.8", "replication"},
+	{"R18.9", "top"},
+	{"R20.10", "digest"},
+	{"R02.13", "config"},
+})
 
 func init() {
 	for i := range provGroups {
 		g := provGroups[i]
 		register(&Rule{
 			ID: g.rule, Props: g.props, Engine: "argument-provenance drift against the reference tree (SSA backward slices)",
-			Text: "same sites, same inputs (" + strings.Join(g.pkgs, ", ") + "): in every function that has as many calls of a given callee (interface method of the module, or function of the module) as on the reference tree, the provenance of each argument – parameters by position, struct fields by index and type, callees whose results flow in, constants, globals – is one that occurs among those calls on the reference tree; a call that now receives the other backend, the unpatched digest, another key or another list is how `the wrong variable` looks",
+			Text:  "same sites, same inputs (" + strings.Join(g.pkgs, ", ") + "): in every function that has as many calls of a given callee (interface method of the module, or function of the module) as on the reference tree, the provenance of each argument – parameters by position, struct fields by index and type, callees whose results flow in, constants, globals – is one that occurs among those calls on the reference tree; a call that now receives the other backend, the unpatched digest, another key or another list is how `the wrong variable` looks",
 			Floor: 1, MustExist: false, Run: func(c *Ctx) { runProvDrift(c, g.pkgs) },
 		})
 	}
@@ -75,8 +130,10 @@ type provWalker struct {
 	use   ssa.Instruction // the call whose inputs are being traced
 	fn    *ssa.Function
 	roots map[string]bool
-	seen  map[ssa.Value]bool
+	seen  map[ssa.Value]int // value -> 1 + the smallest call depth it was visited at (the result must not depend on the order of the walk)
 	nodes int
+	// overflow: the walk was cut off; the provenance is incomplete and is not compared
+	overflow bool
 }
 
 func calleeID(cc *ssa.CallCommon) string {
@@ -103,7 +160,8 @@ func (w *provWalker) addr(a ssa.Value, depth int) {
 	switch x := a.(type) {
 	case *ssa.FieldAddr:
 		st := x.X.Type().Underlying().(*types.Pointer).Elem().Underlying().(*types.Struct)
-		w.roots[fmt.Sprintf("f%d:%s", x.Field, typeKey(st.Field(x.Field).Type()))] = true
+		ci, _ := canonField(x.X.Type(), x.Field)
+		w.roots[fmt.Sprintf("f%d:%s", ci, typeKey(st.Field(x.Field).Type()))] = true
 		w.addr(x.X, depth)
 	case *ssa.IndexAddr:
 		w.walk(x.Index, depth)
@@ -114,10 +172,17 @@ func (w *provWalker) addr(a ssa.Value, depth int) {
 }
 
 func (w *provWalker) walk(v ssa.Value, depth int) {
-	if v == nil || w.seen[v] || w.nodes > 400 {
+	if v == nil {
 		return
 	}
-	w.seen[v] = true
+	if d, ok := w.seen[v]; ok && d <= depth+1 {
+		return
+	}
+	if w.nodes > 2000 {
+		w.overflow = true
+		return
+	}
+	w.seen[v] = depth + 1
 	w.nodes++
 	switch x := v.(type) {
 	case *ssa.Const:
@@ -179,22 +244,32 @@ func (w *provWalker) walk(v ssa.Value, depth int) {
 					if s.Addr == ssa.Value(x) && reaches(s) {
 						w.walk(s.Val, depth)
 					}
-				case *ssa.FieldAddr:
-					if rr := s.Referrers(); rr != nil {
+				case *ssa.FieldAddr, *ssa.IndexAddr:
+					// stores into parts of the cell, however deeply nested (x.a.b = v, x.a[i] = v)
+					var sub func(a ssa.Value, n int)
+					sub = func(a ssa.Value, n int) {
+						rr := a.Referrers()
+						if rr == nil || n > 4 {
+							return
+						}
 						for _, q := range *rr {
-							if st, ok := q.(*ssa.Store); ok && st.Addr == ssa.Value(s) && reaches(st) {
-								w.walk(st.Val, depth)
+							switch t := q.(type) {
+							case *ssa.Store:
+								if t.Addr == a && reaches(t) {
+									w.walk(t.Val, depth)
+								}
+							case *ssa.FieldAddr:
+								if t.X == a {
+									sub(t, n+1)
+								}
+							case *ssa.IndexAddr:
+								if t.X == a {
+									sub(t, n+1)
+								}
 							}
 						}
 					}
-				case *ssa.IndexAddr:
-					if rr := s.Referrers(); rr != nil {
-						for _, q := range *rr {
-							if st, ok := q.(*ssa.Store); ok && st.Addr == ssa.Value(s) && reaches(st) {
-								w.walk(st.Val, depth)
-							}
-						}
-					}
+					sub(s.(ssa.Value), 0)
 				case *ssa.MakeClosure:
 					// the cell is captured: what the closure stores into it
 					if cf, ok := s.Fn.(*ssa.Function); ok {
@@ -221,7 +296,8 @@ func (w *provWalker) walk(v ssa.Value, depth int) {
 		w.walk(x.X, depth)
 	case *ssa.Field:
 		st := x.X.Type().Underlying().(*types.Struct)
-		w.roots[fmt.Sprintf("f%d:%s", x.Field, typeKey(st.Field(x.Field).Type()))] = true
+		ci, _ := canonField(x.X.Type(), x.Field)
+		w.roots[fmt.Sprintf("f%d:%s", ci, typeKey(st.Field(x.Field).Type()))] = true
 		w.walk(x.X, depth)
 	case *ssa.FieldAddr, *ssa.IndexAddr:
 		w.addr(x, depth)
@@ -270,8 +346,11 @@ func (w *provWalker) walk(v ssa.Value, depth int) {
 }
 
 func provOf(fn *ssa.Function, use ssa.Instruction, v ssa.Value) string {
-	w := &provWalker{fn: fn, use: use, top: stripConv(v), roots: map[string]bool{}, seen: map[ssa.Value]bool{}}
+	w := &provWalker{fn: fn, use: use, top: stripConv(v), roots: map[string]bool{}, seen: map[ssa.Value]int{}}
 	w.walk(v, 0)
+	if w.overflow {
+		return "*"
+	}
 	var rs []string
 	for r := range w.roots {
 		rs = append(rs, r)
@@ -315,7 +394,10 @@ func collectProv(p *Program, pkgs []string) map[string]map[string][]provSite {
 	for _, rel := range pkgs {
 		for _, tf := range p.pkgFuncs(rel) {
 			withAnon(tf, func(g *ssa.Function) {
-				fk := FuncName(g)
+				fk := refKey(g)
+				if fk == "" {
+					return
+				}
 				provSigs[fk] = callSignature(g)
 				add := func(id, tuple string, pos token.Pos) {
 					if out[fk] == nil {
@@ -366,7 +448,7 @@ func collectProv(p *Program, pkgs []string) map[string]map[string][]provSite {
 					case *ssa.Store:
 						if fa, ok := x.Addr.(*ssa.FieldAddr); ok {
 							st := fa.X.Type().Underlying().(*types.Pointer).Elem().Underlying().(*types.Struct)
-							add(fmt.Sprintf("ST:f%d:%s", fa.Field, typeKey(st.Field(fa.Field).Type())), provOf(g, ins, x.Val), x.Pos())
+							add(fmt.Sprintf("ST:f%d:%s", func() int { ci, _ := canonField(fa.X.Type(), fa.Field); return ci }(), typeKey(st.Field(fa.Field).Type())), provOf(g, ins, x.Val), x.Pos())
 						}
 						return
 					}
@@ -427,6 +509,10 @@ func genProvReference(repo string) error {
 			ref.Funcs[fk][id] = ts
 		}
 	}
+	for id := range definedCallees(p) {
+		ref.Defined = append(ref.Defined, id)
+	}
+	sort.Strings(ref.Defined)
 	b, _ := json.MarshalIndent(ref, "", " ")
 	if err := os.MkdirAll(refDir, 0o755); err != nil {
 		return err
@@ -459,6 +545,11 @@ func runProvDrift(c *Ctx, pkgs []string) {
 		return
 	}
 	cur := collectProv(c.Program, pkgs)
+	refDefined := map[string]bool{}
+	for _, id := range ref.Defined {
+		refDefined[id] = true
+	}
+	curDefined := definedCallees(c.Program)
 	var fks []string
 	for fk := range cur {
 		fks = append(fks, fk)
@@ -469,8 +560,8 @@ func runProvDrift(c *Ctx, pkgs []string) {
 		if !known {
 			continue
 		}
-		if strings.Join(ref.Sigs[fk], "|") != strings.Join(provSigs[fk], "|") {
-			continue // calls were added, removed, moved into or out of helpers: not judged
+		if strings.Join(ref.Sigs[fk], "|") != strings.Join(provSigs[fk], "|") && !gateOpen(ref.Sigs[fk], provSigs[fk], refDefined, curDefined) {
+			continue // a helper was extracted or inlined: the provenance of every site changes shape, not judged
 		}
 		var ids []string
 		for id := range cur[fk] {
@@ -481,6 +572,20 @@ func runProvDrift(c *Ctx, pkgs []string) {
 			want, ok := rf[id]
 			if !ok || len(want) != len(cur[fk][id]) {
 				continue // sites were added, removed or moved: not judged
+			}
+			wild := false
+			for _, t := range want {
+				if strings.Contains(t, "*") {
+					wild = true
+				}
+			}
+			for _, st := range cur[fk][id] {
+				if strings.Contains(st.tuple, "*") {
+					wild = true
+				}
+			}
+			if wild {
+				continue // a backward slice was cut off: incomplete, not compared
 			}
 			remaining := map[string]int{}
 			for _, t := range want {
